@@ -159,6 +159,9 @@ func cfgDefault(i int) world.Cfg {
 	if i%3 == 1 {
 		c.MaxOrd = 12
 	}
+	if i%4 == 3 {
+		gentle(&c)
+	}
 	return c
 }
 
@@ -173,7 +176,16 @@ func cfgSlotHeavy(i int) world.Cfg {
 	if i%5 == 0 {
 		c.Faults, c.Restarts = false, false
 	}
+	if i%4 == 3 {
+		gentle(&c)
+	}
 	return c
+}
+
+// gentle turns a configuration into a co-operative one in which rollouts and ordered scaling progress.
+func gentle(c *world.Cfg) {
+	c.Gentle, c.Foreign, c.Faults, c.Restarts, c.Pause, c.DeleteSet, c.SecondSet = true, false, false, false, false, false, false
+	c.StepsLo, c.StepsHi = 40, 120
 }
 
 func cfgPolicy(p asv1.PodManagementPolicyType) func(int) world.Cfg {
@@ -191,27 +203,27 @@ func hasPodAction(v *mon.View) bool { return len(v.PodDeletes)+len(v.PodCreates)
 func init() {
 	register(&Check{Prop: "C03", Level: "exploration",
 		Rule:   "seeded random scenarios (hostile initial pod/revision population, then 20-80 steps of reconcile / ordered cache delivery / kubelet / user edits / faults / restarts) plus directed slot scenarios; every reconcile is checked; non-trivial = the reconcile issued at least one pod delete; distinct = distinct (snapshot signature, write list)",
-		Assume: simAssumptions, Cases: scenarioCases(480, 24000),
+		Assume: simAssumptions, Cases: scenarioCases(4800, 96000),
 		Run:    scenarioFamily("C03", cfgSlotHeavy, mon.CheckC03, hasPodDelete, directedC03),
 		Floors: []string{"delete_class_a", "delete_class_b", "delete_class_c", "headline_slot_scenarios"}})
 	register(&Check{Prop: "C04", Level: "exploration",
 		Rule:   "same scenario family as C03; non-trivial = the reconcile issued at least one pod create",
-		Assume: simAssumptions, Cases: scenarioCases(480, 24000),
+		Assume: simAssumptions, Cases: scenarioCases(4800, 96000),
 		Run:    scenarioFamily("C04", cfgSlotHeavy, mon.CheckC04, hasPodCreate, nil),
 		Floors: []string{"creates_at_vacancy", "creates_replacing_terminal"}})
 	register(&Check{Prop: "C05", Level: "exploration",
 		Rule:   "scenario family restricted to OrderedReady sets; non-trivial = reconcile with a pod create or delete",
-		Assume: simAssumptions, Cases: scenarioCases(480, 24000),
+		Assume: simAssumptions, Cases: scenarioCases(4800, 96000),
 		Run:    scenarioFamily("C05", cfgPolicy(asv1.OrderedReadyPodManagement), mon.CheckC05, hasPodAction, nil),
 		Floors: []string{"ordered_creates_checked", "ordered_scalein_checked", "ordered_update_deletes_checked"}})
 	register(&Check{Prop: "C07", Level: "exploration",
 		Rule:   "scenario family (both policies, several template revisions in flight); non-trivial = reconcile with an update-class delete or a pod create",
-		Assume: simAssumptions, Cases: scenarioCases(480, 24000),
+		Assume: simAssumptions, Cases: scenarioCases(4800, 96000),
 		Run:    scenarioFamily("C07", cfgSlotHeavy, mon.CheckC07, hasPodAction, nil),
 		Floors: []string{"update_deletes_checked", "created_below_partition", "created_at_or_above_partition"}})
 	register(&Check{Prop: "C14", Level: "exploration",
 		Rule:   "scenario family restricted to Parallel sets; non-trivial = error-free reconcile that had scaling work",
-		Assume: simAssumptions, Cases: scenarioCases(480, 24000),
+		Assume: simAssumptions, Cases: scenarioCases(4800, 96000),
 		Run:    scenarioFamily("C14", cfgPolicy(asv1.ParallelPodManagement), mon.CheckC14, hasPodAction, nil),
 		Floors: []string{"parallel_reconciles_with_burst>1"}})
 	c12fam := scenarioFamily("C12", cfgDefault, mon.CheckC12, func(v *mon.View) bool {
@@ -224,12 +236,12 @@ func init() {
 	}, directedC12)
 	register(&Check{Prop: "C12", Level: "exploration",
 		Rule:   "scenario family: every status write is checked (bounds, observedGeneration, currentRevision transition); calm family: after convergence the counters are compared with a census of the live pods; non-trivial = reconcile with a status write; distinct = distinct (snapshot signature, write list)",
-		Assume: simAssumptions, Cases: func(t string) int { return scenarioCases(360, 18000)(t) + scenarioCases(160, 8000)(t) },
-		Run:    both(c12fam, scenarioCases(360, 18000), calmFamily("C12")),
+		Assume: simAssumptions, Cases: func(t string) int { return scenarioCases(3600, 72000)(t) + scenarioCases(1200, 24000)(t) },
+		Run:    both(c12fam, scenarioCases(3600, 72000), calmFamily("C12")),
 		Floors: []string{"status_writes_checked", "current_revision_transitions_checked", "census_fixed_points_checked", "status_census_checks", "status_conflict_then_retry_scenarios"}})
 	register(&Check{Prop: "C13", Level: "exploration",
 		Rule:   "scenario family with own/adopted/foreign/orphan revisions; non-trivial = reconcile that deleted a revision",
-		Assume: simAssumptions, Cases: scenarioCases(480, 24000),
+		Assume: simAssumptions, Cases: scenarioCases(4800, 96000),
 		Run: scenarioFamily("C13", cfgDefault, mon.CheckC13, func(v *mon.View) bool {
 			for _, c := range v.R.Calls {
 				if c.Res == simapi.Revisions && c.Verb == "delete" {
@@ -241,7 +253,7 @@ func init() {
 		Floors: []string{"history_deletes_checked", "history_postconditions_checked"}})
 	register(&Check{Prop: "C11", Level: "exploration",
 		Rule:   "scenario family with pause / deletion flags raised at random moments; non-trivial = reconcile of a paused or deleting set",
-		Assume: simAssumptions, Cases: scenarioCases(480, 24000),
+		Assume: simAssumptions, Cases: scenarioCases(4800, 96000),
 		Run:    scenarioFamily("C11", cfgDefault, mon.CheckC11, func(v *mon.View) bool { return v.Paused || v.Deleting }, nil),
 		Floors: []string{"paused_reconciles_checked", "deleting_reconciles_checked", "reconciles_of_sets_deleting_in_api"}})
 }
@@ -251,7 +263,7 @@ var directedC03 []func(*fam)
 func init() {
 	register(&Check{Prop: "C10", Level: "exploration",
 		Rule:   "scenario family with pods/revisions of every owner kind (this set, same-named set with another UID, another controller, none), label match, terminating flag, overlapping selectors and stale set caches; every controller write on pods / revisions / sets is checked against the owner of its target before the call; non-trivial = reconcile that wrote to an existing pod or revision; cache objects are compared with pre-reconcile deep copies",
-		Assume: simAssumptions, Cases: scenarioCases(480, 24000),
+		Assume: simAssumptions, Cases: scenarioCases(4800, 96000),
 		Run: scenarioFamily("C10", cfgDefault, mon.CheckC10, func(v *mon.View) bool {
 			for _, c := range v.R.Writes() {
 				if (c.Res == simapi.Pods || c.Res == simapi.Revisions) && c.Verb != "create" {
@@ -263,12 +275,12 @@ func init() {
 		Floors: []string{"ownership_writes_checked", "adoption_patches_checked", "nonmatching_owned_pod_writes", "fresh_reads_seen"}})
 	register(&Check{Prop: "C06", Level: "exploration",
 		Rule:   "scenario family with 0..2 claim templates, set names with dashes/digits, stale claim caches and faults on claim creates; the ordered write log of the real pod control is checked for identity stamping, claims-before-pod and claim immutability; directed slot-in/slot-out histories check that the same claim objects (UID) come back; non-trivial = reconcile that created a pod",
-		Assume: simAssumptions, Cases: scenarioCases(480, 24000),
+		Assume: simAssumptions, Cases: scenarioCases(4800, 96000),
 		Run:    scenarioFamily("C06", cfgDefault, mon.CheckC06, hasPodCreate, directedC06),
 		Floors: []string{"created_pods_checked", "claim_creates_checked", "claim_bindings_checked", "claim_history_scenarios"}})
 	register(&Check{Prop: "C08", Level: "exploration",
 		Rule:   "scenario family with template edits, rollbacks (4 template versions), non-template edits, stray revisions; after every successful reconcile the believed update revision must mirror the cached template (independent decode and the exported ApplyRevision); revision creates / renumbers are checked; directed name-collision scenarios; non-trivial = reconcile that created or renumbered a revision",
-		Assume: simAssumptions, Cases: scenarioCases(480, 24000),
+		Assume: simAssumptions, Cases: scenarioCases(4800, 96000),
 		Run: scenarioFamily("C08", cfgDefault, mon.CheckC08, func(v *mon.View) bool {
 			for _, c := range v.R.Writes() {
 				if c.Res == simapi.Revisions && (c.Verb == "create" || c.Verb == "update") {
